@@ -39,6 +39,8 @@ def compare(mod, r):
             return ("panic", "implementation panicked (dev=%s release=%s)" % (r.get("dev_panic"), r.get("rel_panic")))
     if "rel" in r and r["rel"] != r["dev"]:
         return ("devrel", "debug and release builds answer differently")
+    if r["model"] is None:
+        return None
     canon = getattr(mod, "canon", lambda c, a: a)
     from vlib.props.C04 import canon as fps_canon   # the model prints fps as an exact rational, the crate as f64 bits
     a, m = canon(case, fps_canon(case, r["dev"])), canon(case, fps_canon(case, r["model"]))
@@ -130,6 +132,9 @@ def run_property(ck, pid, tier, seed, replay):
                 distinct.add(r["case"])
             if d is not None:
                 bad.append((r, d, o))
+        if hasattr(mod, "cross_check"):
+            for r, d in mod.cross_check(results):
+                bad.append((r, d, "cross"))
         cov["evaluations"] = len(results)
         cov["distinct_nontrivial"] = len(distinct)
         cov["rule"] = getattr(mod, "RULE", "")
@@ -137,7 +142,7 @@ def run_property(ck, pid, tier, seed, replay):
         cov["distribution"] = stats
         cov["corpus_cases"] = origin.count("corpus")
         samp = [r for r in results[:: max(1, len(results) // 5)]][:5]
-        cov["samples"] = [{"case": r["case"][:400], "impl": r["dev"][:400], "model": r["model"][:400]} for r in samp]
+        cov["samples"] = [{"case": r["case"][:400], "impl": r["dev"][:400], "model": (r["model"] or "(implementation only)")[:400]} for r in samp]
         # shrink / pick the smallest failing case per kind
         bad.sort(key=lambda x: len(x[0]["case"]))
         seen_kinds = {}
@@ -155,11 +160,11 @@ def run_property(ck, pid, tier, seed, replay):
                 except Exception:
                     traceback.print_exc()
             payload = {"why": detail, "kind": kind, "case": r["case"], "impl_dev": r["dev"][:4000],
-                       "impl_release": r.get("rel", "")[:4000], "model": r["model"][:4000], "origin": o,
+                       "impl_release": r.get("rel", "")[:4000], "model": (r["model"] or "(implementation only)")[:4000], "origin": o,
                        "failing_cases_of_this_kind": len(lst),
                        "broken": "correspondence implementation vs Coq model (%s)" % getattr(mod, "CORRESPONDENCE", pid)}
             v.violation(ck, h8(kind + r["case"]), payload, no_input=(kind == "format"))
-            print("DISAGREEMENT[%s] %s\n  case : %s\n  impl : %s\n  model: %s" % (kind, detail, r["case"][:600], r["dev"][:600], r["model"][:600]))
+            print("DISAGREEMENT[%s] %s\n  case : %s\n  impl : %s\n  model: %s" % (kind, detail, r["case"][:600], r["dev"][:600], (r["model"] or "")[:600]))
     else:
         cov["evaluations"] = 0
         cov["distinct_nontrivial"] = 0
